@@ -435,16 +435,26 @@ func snapshotOf(colls []*state.TypedCollection[Entity], other *state.TypedCollec
 	return string(b)
 }
 
-// RunHostile presents data to Apply on a pre-populated materializer.
-func RunHostile(c *HostileCase) (out *vkit.Outcome) {
-	o := &vkit.Outcome{}
+// hostileRun is one presentation of the data to a materializer whose
+// collections hold user/1, user/2 and a/b c.  hist selects how they got there:
+// the contents are the same, the events applied before (and so whatever the
+// materializer may have kept from decoding them) differ.
+type hostileRun struct {
+	err                   error
+	before, after         string
+	lastBefore, lastAfter eventbus.Offset
+	panicked              any
+	onErrors              int
+}
+
+func hostileOnce(c *HostileCase, hist int) *hostileRun {
+	r := &hostileRun{}
 	var opts []state.MaterializerOption
 	if c.Strict {
 		opts = append(opts, state.WithStrictSchema())
 	}
-	onErrors := 0
 	if c.Opts&1 != 0 {
-		opts = append(opts, state.WithOnError(func(error) { onErrors++ }))
+		opts = append(opts, state.WithOnError(func(error) { r.onErrors++ }))
 	}
 	if c.Opts&2 != 0 {
 		opts = append(opts, state.WithOnReset(func() {}))
@@ -459,48 +469,134 @@ func RunHostile(c *HostileCase) (out *vkit.Outcome) {
 	state.RegisterCollection(m, users)
 	state.RegisterCollection(m, ab)
 	state.RegisterCollection(m, loose)
-	seed := func(off, tn, key string) {
-		msg, _ := state.Insert(key, Entity{ID: key, Name: "seed"}, state.WithEntityType(tn))
+	n := 0
+	apply := func(msg any) {
+		n++
 		d, _ := json.Marshal(msg)
-		m.Apply(&eventbus.StoredEvent{Offset: eventbus.Offset(off), Type: "state.ChangeMessage", Data: d})
+		m.Apply(&eventbus.StoredEvent{Offset: eventbus.Offset(fmt.Sprintf("%04d", n)), Type: "state.ChangeMessage", Data: d})
 	}
-	seed("0001", "user", "1")
-	seed("0002", "user", "2")
-	seed("0003", "a/b", "c")
+	seed := func(tn, key string) {
+		msg, _ := state.Insert(key, Entity{ID: key, Name: "seed"}, state.WithEntityType(tn))
+		apply(msg)
+	}
+	switch hist {
+	case 0:
+		seed("user", "1")
+		seed("user", "2")
+		seed("a/b", "c")
+	case 1:
+		// last applied: a delete of user/9
+		seed("a/b", "c")
+		seed("user", "2")
+		seed("user", "9")
+		seed("user", "1")
+		del, _ := state.Delete[Entity]("9", state.WithEntityType("user"), state.WithTxID("tx-9"))
+		apply(del)
+	default:
+		// last applied: an update of user/2 carrying every optional field
+		seed("user", "1")
+		seed("a/b", "c")
+		seed("loose", "gone")
+		delLoose, _ := state.Delete[map[string]any]("gone", state.WithEntityType("loose"))
+		apply(delLoose)
+		upd, _ := state.Update("2", Entity{ID: "2", Name: "seed"}, state.WithEntityType("user"), state.WithTxID("tx-2"), state.WithTimestamp(time.Unix(1700000000, 0)))
+		apply(upd)
+	}
+	for n < 6 {
+		// pad with events of a type nobody registered, so that LastOffset is
+		// the same in every history
+		n++
+		m.Apply(&eventbus.StoredEvent{Offset: eventbus.Offset(fmt.Sprintf("%04d", n)), Type: "state.ChangeMessage", Data: []byte(`{"headers":{"control":"snapshot-end"}}`)})
+	}
 	colls := []*state.TypedCollection[Entity]{users, ab}
-	before, lastBefore := snapshotOf(colls, loose), m.LastOffset()
-	var err error
+	r.before, r.lastBefore = snapshotOf(colls, loose), m.LastOffset()
 	func() {
-		defer func() {
-			if r := recover(); r != nil {
-				o.Failf("", "Apply panicked on data %q: %v", c.Data, r)
-			}
-		}()
-		err = m.Apply(&eventbus.StoredEvent{Offset: "0004", Type: "state.ChangeMessage", Data: []byte(c.Data)})
+		defer func() { r.panicked = recover() }()
+		r.err = m.Apply(&eventbus.StoredEvent{Offset: "0099", Type: "state.ChangeMessage", Data: []byte(c.Data)})
 	}()
+	r.after, r.lastAfter = snapshotOf(colls, loose), m.LastOffset()
+	return r
+}
+
+// RunHostile presents data to Apply on a pre-populated materializer.
+func RunHostile(c *HostileCase) (out *vkit.Outcome) {
+	o := &vkit.Outcome{}
+	var runs []*hostileRun
+	for hist := 0; hist < 3; hist++ {
+		r := hostileOnce(c, hist)
+		runs = append(runs, r)
+		if r.panicked != nil {
+			o.Failf("", "Apply panicked on data %q: %v", c.Data, r.panicked)
+			return o
+		}
+		if r.err != nil {
+			if r.after != r.before || r.lastAfter != r.lastBefore {
+				o.Failf("", "Apply(%q) returned error %v but changed the state (%s -> %s) or LastOffset (%q -> %q)", c.Data, r.err, r.before, r.after, r.lastBefore, r.lastAfter)
+			}
+		} else if r.lastAfter != "0099" {
+			o.Failf("", "Apply(%q) returned nil but LastOffset is %q", c.Data, r.lastAfter)
+		}
+		if r.err == nil && !json.Valid([]byte(c.Data)) {
+			o.Failf("", "Apply(%q) returned nil: the data is not a JSON document, so it cannot be applied (state %s -> %s, LastOffset %q -> %q)", c.Data, r.before, r.after, r.lastBefore, r.lastAfter)
+			return o
+		}
+	}
 	if len(o.Viol) > 0 {
 		return o
 	}
-	after, lastAfter := snapshotOf(colls, loose), m.LastOffset()
-	if err != nil {
-		if after != before || lastAfter != lastBefore {
-			o.Failf("", "Apply(%q) returned error %v but changed the state (%s -> %s) or LastOffset (%q -> %q)", c.Data, err, before, after, lastBefore, lastAfter)
+	r0 := runs[0]
+	// what Apply does with an event is decided by the event and the state,
+	// not by the events applied earlier
+	for hist, r := range runs[1:] {
+		if r.before != r0.before {
+			o.Failf("", "harness: history %d leaves state %s, history 0 leaves %s", hist+1, r.before, r0.before)
+			return o
 		}
-	} else if lastAfter != "0004" {
-		o.Failf("", "Apply(%q) returned nil but LastOffset is %q", c.Data, lastAfter)
+		if (r.err == nil) != (r0.err == nil) || r.after != r0.after {
+			o.Failf("", "Apply(%q) on two materializers holding the same state %s: after history 0 it returned %v and left %s, after history %d (same contents, other events applied before) it returned %v and left %s", c.Data, r0.before, r0.err, r0.after, hist+1, r.err, r.after)
+			return o
+		}
 	}
-	if err == nil && !json.Valid([]byte(c.Data)) {
-		o.Failf("", "Apply(%q) returned nil: the data is not a JSON document, so it cannot be applied (state %s -> %s, LastOffset %q -> %q)", c.Data, before, after, lastBefore, lastAfter)
-		return o
+	// an accepted event changes nothing but the entity it names (a reset
+	// clears everything)
+	if r0.err == nil && r0.after != r0.before {
+		var fresh struct {
+			Type    string `json:"type"`
+			Key     string `json:"key"`
+			Headers struct {
+				Control string `json:"control"`
+			} `json:"headers"`
+		}
+		if json.Unmarshal([]byte(c.Data), &fresh) == nil && fresh.Headers.Control == "" {
+			var b, a map[string]json.RawMessage
+			json.Unmarshal([]byte(r0.before), &b)
+			json.Unmarshal([]byte(r0.after), &a)
+			prefix := map[string]string{"user": "0|", "a/b": "1|", "loose": "o|"}[fresh.Type]
+			for _, mm := range []map[string]json.RawMessage{b, a} {
+				for slot := range mm {
+					if string(b[slot]) == string(a[slot]) {
+						continue
+					}
+					named := prefix != "" && (slot == prefix+fresh.Key || slot == prefix+state.CompositeKey(fresh.Type, fresh.Key))
+					if !named {
+						o.Failf("", "Apply(%q) returned nil and changed slot %q (%s -> %s); the event names entity type %q key %q", c.Data, slot, b[slot], a[slot], fresh.Type, fresh.Key)
+						return o
+					}
+				}
+			}
+		}
 	}
-	if json.Valid([]byte(c.Data)) && err != nil {
+	if json.Valid([]byte(c.Data)) && r0.err != nil {
 		o.Nontrivial = true
 		o.Class("valid_json_rejected")
 	}
-	if err == nil {
+	if r0.err == nil {
 		o.Class("accepted")
+		if r0.after != r0.before {
+			o.Class("accepted_and_changed_state")
+		}
 	}
-	if c.Opts&1 != 0 && err != nil {
+	if c.Opts&1 != 0 && r0.err != nil {
 		o.Class("rejected_with_on_error_handler")
 	}
 	return o
